@@ -2114,6 +2114,22 @@ theorem bindParams_rel : ∀ (ps : List (String × Ty)) (args : List (VTy × Lis
         · simp at h
       · simp at h
 
+/-- the constants as variables: their wires encode their values -/
+theorem constEnvOf_rel (tys : List (String × Ty)) : ∀ (cs : List (String × Val)) (cb : BEnv),
+    constEnvOf tys cs = some cb → EnvRel cs cb
+  | [], cb, h => by
+    simp only [constEnvOf, Option.some.injEq] at h; subst h; exact EnvRel.nil
+  | (x, v) :: rest, cb, h => by
+    simp only [constEnvOf] at h
+    split at h
+    · rename_i y ty cb' hfind hrest
+      split at h
+      · rename_i hv
+        simp only [Option.some.injEq] at h; subst h
+        exact EnvRel.cons (VRel.of_hasType hv) (constEnvOf_rel tys rest cb' hrest)
+      · simp at h
+    · simp at h
+
 /-- **the inlined calls are sound at every depth and every fuel** -/
 theorem callAt_sound (prog : Prog) : ∀ (n f : Nat), CallSound prog ⟨callAt prog n, prog.enum?⟩ f
   | 0, f => by
@@ -2127,30 +2143,26 @@ theorem callAt_sound (prog : Prog) : ∀ (n f : Nat), CallSound prog ⟨callAt p
     · simp at hc
     · rename_i d hfn
       split at hc
-      · rename_i hcs
-        have hcons : prog.consts = [] := by simpa using hcs
+      · rename_i cb callee hcb hbp
         split at hc
-        · rename_i callee hbp
-          split at hc
-          · rename_i t' bs' p' envB hbody
-            simp only [Option.some.injEq, Prod.mk.injEq] at hc
-            obtain ⟨rfl, rfl, rfl⟩ := hc
-            obtain ⟨hlen, hrel⟩ := bindParams_rel d.params args vs callee hbp hargs
-            have hres := hS d.body (((d.params.map (·.1)).zip vs).reverse ++ prog.consts) callee _ _ _ _
-              (by rw [hcons, List.append_nil]; exact hrel) hbody
-            simp only [runFn, hfn, hlen, bne_self_eq_false, Bool.false_eq_true, if_false]
-            cases hev : evalStmts f prog (((d.params.map (·.1)).zip vs).reverse ++ prog.consts) d.body with
-            | error er =>
-              rw [hev] at hres
-              cases er with
-              | panic k => exact hres
-              | stuck w => exact hres.elim
-              | fuel => trivial
-            | ok res =>
-              obtain ⟨r, envr⟩ := res
-              rw [hev] at hres
-              exact ⟨hres.1, hres.2.1⟩
-          · simp at hc
+        · rename_i t' bs' p' envB hbody
+          simp only [Option.some.injEq, Prod.mk.injEq] at hc
+          obtain ⟨rfl, rfl, rfl⟩ := hc
+          obtain ⟨hlen, hrel⟩ := bindParams_rel d.params args vs callee hbp hargs
+          have hres := hS d.body (((d.params.map (·.1)).zip vs).reverse ++ prog.consts) (callee ++ cb) _ _ _ _
+            (hrel.append (constEnvOf_rel prog.constTys prog.consts cb hcb)) hbody
+          simp only [runFn, hfn, hlen, bne_self_eq_false, Bool.false_eq_true, if_false]
+          cases hev : evalStmts f prog (((d.params.map (·.1)).zip vs).reverse ++ prog.consts) d.body with
+          | error er =>
+            rw [hev] at hres
+            cases er with
+            | panic k => exact hres
+            | stuck w => exact hres.elim
+            | fuel => trivial
+          | ok res =>
+            obtain ⟨r, envr⟩ := res
+            rw [hev] at hres
+            exact ⟨hres.1, hres.2.1⟩
         · simp at hc
       · simp at hc
 
